@@ -15,7 +15,7 @@ git -C $base worktree add --detach $wt HEAD >/dev/null 2>&1 || { echo "worktree 
 git -C $wt apply $V/seeded/$name/patch.diff || { echo "patch does not apply"; exit 2; }
 out=$V/seeded/$name
 # failures of the unchanged tree (the recorded findings) are not hits of the seeded change
-if [ ! -f /tmp/seedrun/baseline.json ]; then
+if [ ! -s /tmp/seedrun/baseline.json ]; then
   (cd $V && VERIF_REPO=$base VERIF_WORK=/tmp/seedrun/work_base python3 check.py --sweep ${SWEEP:-30000} | grep '^SWEEP-MAP' | sed 's/^SWEEP-MAP //' > /tmp/seedrun/baseline.json)
 fi
 export VERIF_SWEEP_BASELINE=/tmp/seedrun/baseline.json
